@@ -276,13 +276,13 @@ impl TmpFile {
 /// With `dry` (in-process runs), the first monitored decode does not forward
 /// allocation requests that would abort the process; if one is seen the
 /// function returns `None` and the caller repeats the case in a child.
-pub fn exec_case(bytes: &[u8], plan: Plan, hdr: Option<&Hdr>, tmp: Option<&TmpFile>, allow_load: bool, dry: bool) -> Option<Vec<EntryOut>> {
+pub fn exec_case(bytes: &[u8], plan: Plan, hdr: Option<&Hdr>, tmp: Option<&TmpFile>, allow_load: bool, dry: Option<u64>) -> Option<Vec<EntryOut>> {
     let mut outs = Vec::new();
-    if dry && !plan.buf {
+    if let (Some(limit), false) = (dry, plan.buf) {
         // The interception lives in the monitored buffer decode.
         let io = IoState::new(bytes.len());
         let mut mon = Mon::new(bytes.len(), false);
-        mon.intercept_above = Some(allocmon::REFUSE_ABOVE as u64 - 4096);
+        mon.intercept_above = Some(limit);
         let _ = catch(|| {
             let rd = Counting::new(ValueReader::new(ReadPos::new(IoMon::new(Cursor::new(bytes), &io))), &mut mon);
             ModelProto::decode(rd).is_ok()
@@ -301,9 +301,7 @@ pub fn exec_case(bytes: &[u8], plan: Plan, hdr: Option<&Hdr>, tmp: Option<&TmpFi
         let io = IoState::new(len);
         let mut mon = Mon::new(len, true);
         mon.hdr = hdr_ptr;
-        if dry {
-            mon.intercept_above = Some(allocmon::REFUSE_ABOVE as u64 - 4096);
-        }
+        mon.intercept_above = dry;
         set_stage(hdr, Entry::MonBuf);
         let mut out = EntryOut { entry: Entry::MonBuf as u32, trace_match: -1, ..Default::default() };
         let (r, max_alloc) = allocmon::measure(|| {
@@ -439,16 +437,6 @@ pub fn needs_child(bytes: &[u8], plan: Plan) -> bool {
     plan.load || plan.child || bytes.len() > SAFE_LEN
 }
 
-/// Under Miri there are no children: skip inputs with a varint, at any
-/// offset, that as a length would make the decoder really allocate a lot.
-pub fn unsafe_without_child(bytes: &[u8]) -> bool {
-    bytes.len() > SAFE_LEN
-        || (0..bytes.len()).any(|i| match shadow::varint_at(bytes, i) {
-            Some((v, _)) => v > (1 << 22) && v <= (1u64 << 63) + (1 << 20),
-            None => false,
-        })
-}
-
 pub struct CaseOutcome {
     pub outs: Vec<EntryOut>,
     /// Abnormal child end, if any.
@@ -484,21 +472,25 @@ impl Ctx {
 
     pub fn run_case(&self, bytes: &[u8], plan: Plan) -> CaseOutcome {
         if cfg!(miri) {
-            if unsafe_without_child(bytes) {
+            // No children under Miri: skip what would need one (long inputs,
+            // lengths for which the decoder would really allocate megabytes).
+            if bytes.len() > 4096 {
                 return CaseOutcome { outs: Vec::new(), crash: None, in_child: true };
             }
-            let outs = exec_case(bytes, plan, None, None, false, false).unwrap_or_default();
-            return CaseOutcome { outs, crash: None, in_child: false };
+            return match exec_case(bytes, plan, None, None, false, Some(1 << 20)) {
+                Some(outs) => CaseOutcome { outs, crash: None, in_child: false },
+                None => CaseOutcome { outs: Vec::new(), crash: None, in_child: true },
+            };
         }
         let mut in_proc = None;
         if !needs_child(bytes, plan) {
-            in_proc = exec_case(bytes, plan, None, self.tmp.as_ref(), false, true);
+            in_proc = exec_case(bytes, plan, None, self.tmp.as_ref(), false, Some(allocmon::REFUSE_ABOVE as u64 - 4096));
         }
         if in_proc.is_none() {
             let timeout = self.timeout_s + (bytes.len() >> 16) as u32;
             allocmon::set_shared(self.shared.max_alloc_ptr());
             let run = self.shared.run(timeout, || {
-                let outs = exec_case(bytes, plan, Some(self.shared.hdr()), self.tmp.as_ref(), true, false).unwrap_or_default();
+                let outs = exec_case(bytes, plan, Some(self.shared.hdr()), self.tmp.as_ref(), true, None).unwrap_or_default();
                 Json::Array(outs.iter().map(|o| o.to_json()).collect()).to_string()
             });
             allocmon::set_shared(std::ptr::null_mut());
@@ -657,7 +649,7 @@ pub fn judge(bytes: &[u8], oc: &CaseOutcome) -> Vec<Finding> {
                         len_pos,
                         depth,
                         value,
-                        len.saturating_sub(*len_pos)
+                        len.saturating_sub(*len_pos + shadow::varint_at(bytes, *len_pos).map(|v| v.1).unwrap_or(1))
                     ),
                 );
             }
@@ -973,7 +965,7 @@ pub fn run(args: &Args) {
         rep.note("length_sites_by_field", json!(kinds));
     }
 
-    let budget = args.budget(if miri { 60 } else { 12_000 }, if miri { 600 } else { 2_000_000 });
+    let budget = args.budget(if miri { 60 } else { 8_000 }, if miri { 600 } else { 2_000_000 });
     let mut done: u64 = 0;
     let shard = args.shard as u64;
     let shards = args.shards.max(1) as u64;
@@ -983,7 +975,7 @@ pub fn run(args: &Args) {
         runner.shrink_time_box_s = 20.0;
     }
     let mut idx: u64 = 0;
-    let mut mine = |idx: &mut u64| {
+    let mine = |idx: &mut u64| {
         let m = *idx % shards == shard;
         *idx += 1;
         m
@@ -1084,10 +1076,6 @@ pub fn run(args: &Args) {
             bytes = b2;
             class = format!("{}+{}", class, n);
         }
-        if miri && unsafe_without_child(&bytes) {
-            runner.rep.count("skipped_needs_child");
-            continue;
-        }
         let case = Case { bytes, class, detail: m.detail, seed_name: s.name, gen_: Gen::Bytes, structured };
         let plan = Plan { file: !miri && rng.chance(1, 2), load: !miri && rng.chance(1, 64), ..full_plan };
         runner.run(&case, plan);
@@ -1144,7 +1132,7 @@ pub fn bench() {
         let plan = Plan { buf: true, sniff: true, file: true, load: false, child: false };
         let t = std::time::Instant::now();
         for _ in 0..50 {
-            exec_case(&s.bytes, plan, None, ctx.tmp.as_ref(), false, true);
+            exec_case(&s.bytes, plan, None, ctx.tmp.as_ref(), false, None);
         }
         let a = t.elapsed() / 50;
         let t = std::time::Instant::now();
